@@ -717,7 +717,12 @@ impl Property for C06 {
                     argv.push("-o".into());
                     argv.push(outp.to_string_lossy().to_string());
                     let w = 1 + dec.choose("W", 16);
-                    let (res, core) = cli::run_in_process(&argv, dec, w);
+                    // the --parallel runs of the last variant use the simulated worker pool
+                    let pool = if p.is_some() && vi == 2 { 2 + dec.choose("poolW", 3) } else { 0 };
+                    let (res, core) = cli::run_in_process_pool(&argv, dec, w, pool);
+                    if pool > 0 && core.stats.regions > 0 {
+                        out.probe("parallel_run_on_simulated_pool");
+                    }
                     dec = core.dec;
                     let st = core.stats;
                     out.steps += st.decomp_steps + st.bern.len() as u64 + 1;
